@@ -81,6 +81,22 @@ Theorem C12_plain_files : forall ls, Forall plain_line ls -> parse_conf (join_li
 Proof. exact parse_plain. Qed.
 Print Assumptions C12_plain_files.
 
+(** The space-bug flag is sticky: what the filters see after the head of smtp_rcpt (the model follows the C text via
+    GenFilters.SPACEBUG_STICKY) is "recorded before this command OR blanks in this command"; a clean RCPT TO line
+    does not clear what MAIL FROM or an earlier RCPT TO recorded.  Hence a recipient whose effective smtp_space_bug
+    (user, domain or global level) is 255 answers 500 5.5.2 to such a client, and a client that never showed the bug
+    passes the filter. *)
+Theorem C12_spacebug_sticky : forall s uc dc gc,
+  rcpt_spacebug s = (s_prebug s || negb (N.eqb (s_spaces s) 0))%bool /\
+  (doc_spacebug s = true ->
+   to_int (setting_value (getsettingglobal uc dc gc KEY_SMTP_SPACE_BUG)) = SPB_REJECT_ALL ->
+   cb_smtpbugs (rcpt_spacebug s) s uc dc gc = (FDeniedMsg, Some REPLY_SMTPBUGS)) /\
+  (doc_spacebug s = false -> cb_smtpbugs (rcpt_spacebug s) s uc dc gc = passed).
+Proof.
+  intros s uc dc gc. split; [apply rcpt_spacebug_doc|split; [apply smtpbugs_reject_all|apply smtpbugs_clean]].
+Qed.
+Print Assumptions C12_spacebug_sticky.
+
 (** The checker that ./check runs on every observation made on the C code ([spec_ok_C12]: documented combination
     of the filter results, documented three-level value of the probed setting, man page's global marks, and the
     interface discipline "denied with message" = the filter has sent one 5xx itself), stated for every case of the
